@@ -16,6 +16,21 @@ if [ -n "${VERIF_REPO:-}" ]; then
   sed "s#=> /repo#=> $VERIF_REPO#" go.mod > ".work/go-$tag.mod"; cp go.sum ".work/go-$tag.sum" 2>/dev/null || touch ".work/go-$tag.sum"
   modflag="-modfile=.work/go-$tag.mod"; bin=".work/check-$prop-$tag"
 fi
+if [ "$prop" = "C18" ]; then
+  # C18 is built against the sync shim through a build overlay regenerated from the repository's current files
+  repo="${VERIF_REPO:-/repo}"
+  ovl=".work/ovl-$(echo "$repo" | tr -c 'A-Za-z0-9' '_')"
+  if ! go run ./cmd/mkoverlay "$repo" "$(pwd)" "$ovl" > ".work/build-$prop.log" 2>&1 ||
+     ! go build $modflag -tags verifshim -overlay "$ovl/overlay.json" -o "$bin" ./cmd/check18 2>> ".work/build-$prop.log"; then
+    cat ".work/build-$prop.log" >&2
+    echo "BUILD-ERROR property=$prop (harness or /repo does not compile)" >&2
+    exit 2
+  fi
+  if go build $modflag -race -o "$bin-race" ./cmd/check18race 2>> ".work/build-$prop.log"; then
+    export VERIF_C18_RACE_BIN="$(pwd)/$bin-race"
+  fi
+  exec "$bin" "$@"
+fi
 if ! go build $modflag -o "$bin" ./cmd/check 2> ".work/build-$prop.log"; then
   cat ".work/build-$prop.log" >&2
   echo "BUILD-ERROR property=$prop (harness or /repo does not compile)" >&2
